@@ -32,6 +32,10 @@ def run(ctx) -> None:
 
     for dev in concrete_devices(ctx):
         ctx.reuse("C10.same-mask", c07.step_block, dev)
+    # "the i-th volume slot belongs to tip i": the converted tips are strictly ascending and paired one-to-one with the slots
+    from . import c13
+
+    ctx.reuse("C10.slot-order", c13.one_to_one)
 
 
 def _tip_table(ctx, rule) -> Dict[str, int]:
